@@ -378,6 +378,10 @@ impl Session {
                 self.dump()
             }
             b'L' => self.list_files(),
+            b'Y' => {
+                self.quiesce();
+                crate::suite_crash::dir_check(self)
+            }
             b'T' => {
                 let n: Vec<String> = (0..7)
                     .map(|l| {
